@@ -67,7 +67,10 @@ def opRouterNewPath (j : Json) : R Json := do
   let tA := c.lookup (loc.getD 0)
   let tB := c.lookup new
   let m := c.getNewPath path search hash base new loc
-  let judge (o : Str) : Bool := Spec.switchOk c.names tA tB path search hash base new loc o
+  -- the strong judgement `switchOkFull` (= `switchOkStrong`: `switchOk` and "served by the same route of the new
+  -- locale whenever a route of the old locale serves the old URL"), proved of the model by
+  -- `C14_switch_rewrites_localized` / `C14_switch_rewrites_localized_full_statement`
+  let judge (o : Str) : Bool := Spec.switchOkFull c.names tA tB path search hash base new loc o
   let specModel : Json := match m with
     | .ok o => jbool (judge o)
     | .panic _ => Json.null
@@ -79,6 +82,7 @@ def opRouterNewPath (j : Json) : R Json := do
     | _, _ => false
   return jobj [("model", joutStr m), ("spec_ok_model", specModel),
     ("spec_ok_impl", jopt (fun o => jbool (judge o)) impl),
+    ("spec_weak_ok_impl", jopt (fun o => jbool (Spec.switchOk c.names tA tB path search hash base new loc o)) impl),
     ("compat", jbool (Spec.compatOpt tA tB)),
     ("under_base", jbool (Spec.afterBase path base).isSome),
     ("localized", jbool localized)]
@@ -87,11 +91,11 @@ def joutList : Outcome (List Str) → Json
   | .ok l => jobj [("ok", jarr (l.map jstr))]
   | .panic m => jobj [("panic", Json.str m)]
 
-/-- every step of a history judged by `Spec.switchOk` (no query, no hash): `outs[i]` is the pathname after step `i` -/
+/-- every step of a history judged by `Spec.switchOkFull` (no query, no hash): `outs[i]` is the pathname after step `i` -/
 def seqJudge (c : Cfg) (base : Str) : Str → Option Nat → List Nat → List Str → Bool
   | _, _, [], [] => true
   | path, cur, new :: rest, out :: outs =>
-    Spec.switchOk c.names (c.lookup (cur.getD 0)) (c.lookup new) path [] [] base new cur out
+    Spec.switchOkFull c.names (c.lookup (cur.getD 0)) (c.lookup new) path [] [] base new cur out
       && seqJudge c base out (some new) rest outs
   | _, _, _, _ => false
 
